@@ -37,7 +37,8 @@ type vfDB struct {
 
 // one step of a history: a command that goes through the log, or a snapshot
 type vfStep struct {
-	Kind  string   `json:"kind"` // schema req load snap
+	Kind  string   `json:"kind"` // schema req load badload snap
+	Bad   string   `json:"bad,omitempty"` // badload: truncated | header-garbage | page-garbage | not-sqlite
 	Tx    bool     `json:"tx,omitempty"`
 	Stmts []vfStmt `json:"stmts,omitempty"`
 	Load  *vfDB    `json:"load,omitempty"`
@@ -110,6 +111,8 @@ func (st vfStep) coqCmd() string {
 		return fmt.Sprintf("CReq %s %s", coqBool(st.Tx), coqList(it))
 	case "load":
 		return "CLoad " + st.Load.coq()
+	case "badload":
+		return "CLoadRejected"
 	}
 	panic("not a command: " + st.Kind)
 }
@@ -173,6 +176,18 @@ func vfExec(s *Store, st vfStep) (uint64, error) {
 	case "schema", "req":
 		_, idx, err := s.Execute(context.Background(), executeRequestFromStrings(st.sqls(), false, st.Tx))
 		return idx, err
+	case "badload":
+		// data that is committed to the log and refused by every node when it is applied
+		b, err := vfBadLoadBytes(st.Bad)
+		if err != nil {
+			return 0, err
+		}
+		if err := s.Load(context.Background(), &proto.LoadRequest{Data: b}); err == nil {
+			return 0, fmt.Errorf("load of %s data was accepted", st.Bad)
+		} else if !strings.Contains(err.Error(), "invalid SQLite data") {
+			return 0, fmt.Errorf("load of %s data: %w", st.Bad, err)
+		}
+		return s.raft.LastIndex(), nil
 	case "load":
 		b, err := vfSQLiteBytes(*st.Load)
 		if err != nil {
@@ -279,6 +294,34 @@ func vfSQLiteBytes(d vfDB) ([]byte, error) {
 		return nil, err
 	}
 	return os.ReadFile(path)
+}
+
+var vfBadKinds = []string{"truncated", "header-garbage", "page-garbage", "not-sqlite"}
+
+// vfBadLoadBytes: data Store.Load commits to the log but no node accepts
+func vfBadLoadBytes(kind string) ([]byte, error) {
+	good, err := vfSQLiteBytes(vfDB{P: []int64{1, 2, 3}, C: [][2]int64{{1, 1}, {2, 2}}})
+	if err != nil {
+		return nil, err
+	}
+	b := append([]byte{}, good...)
+	switch kind {
+	case "truncated":
+		return b[:len(b)/2], nil
+	case "header-garbage":
+		for i := 100; i < len(b); i++ {
+			b[i] = byte(i*7 + 3)
+		}
+	case "page-garbage":
+		for i := 4096; i < len(b); i++ {
+			b[i] = byte(i*13 + 5)
+		}
+	case "not-sqlite":
+		return []byte("this is not a database at all, just some text that was uploaded by mistake"), nil
+	default:
+		return nil, fmt.Errorf("bad load kind %q", kind)
+	}
+	return b, nil
 }
 
 type vfServer struct {
@@ -431,7 +474,7 @@ func (d vfDisk) checkLog(cmds map[uint64]vfStep) error {
 		if !ok {
 			continue
 		}
-		if c.Kind == "load" {
+		if c.Kind == "load" || c.Kind == "badload" {
 			if len(e.Load) == 0 {
 				return fmt.Errorf("index %d: expected a load", e.Index)
 			}
